@@ -297,8 +297,20 @@ def py_slice_bounds(run, n, lo, hi, node):
             return z3.If(x.ty.is_none(x.t), default, clamp(inner))
         return clamp(run.coerce(x, TInt).t)
 
+    def proved(cond):
+        if run.spec:
+            return False
+        try:
+            return not run.feasible(z3.Not(cond))
+        except z3.Z3Exception:
+            return False
+
     def clamp(i):
-        i = z3.If(i < 0, z3.If(i + n < 0, 0, i + n), i)
+        i = z3.simplify(i)
+        if not (z3.is_int_value(i) and i.as_long() >= 0) and not proved(i >= 0):
+            i = z3.If(i < 0, z3.If(i + n < 0, 0, i + n), i)
+        if proved(i <= n):
+            return i
         return z3.If(i > n, n, i)
 
     return b(lo, z3.IntVal(0)), b(hi, n)
@@ -320,7 +332,14 @@ def getslice(run, base, lo, hi, node):
         n = z3.Length(base.t)
         a, b = py_slice_bounds(run, n, lo, hi, node)
         a, b = run.try_const(a), run.try_const(b)
-        return Val(ty, z3.Extract(base.t, a, z3.If(b - a < 0, 0, b - a)) if ty is not TStr else z3.SubString(base.t, a, z3.If(b - a < 0, 0, b - a)))
+        ln = z3.simplify(b - a)
+        if not (z3.is_int_value(ln) and ln.as_long() >= 0):
+            try:
+                if run.spec or run.feasible(b - a < 0):
+                    ln = z3.If(b - a < 0, 0, b - a)
+            except z3.Z3Exception:
+                ln = z3.If(b - a < 0, 0, b - a)
+        return Val(ty, z3.Extract(base.t, a, ln) if ty is not TStr else z3.SubString(base.t, a, ln))
     raise err(f"slice of {ty}")
 
 
